@@ -147,14 +147,15 @@ def cases(tier):
     cs.append(Case("fp-edges:cherry:eps=sym", constrain.h_kernel_fp,
                    dict(skel="cherry", which=["edges"], eps_value=None, qtimeout_ms=120000),
                    weight=50))
-    fp_skels = ["cat3", "internal_sample"] if tier == "quick" else \
-        ["cat3", "internal_sample", "tri", "two_parents", "bal4", "root_not_last"]
-    for sk in fp_skels:
-        for ev in ((1e-8,) if tier == "quick" else (1e-8, 1e-6, 1.0)):
-            cs.append(Case(f"fp-edges:{sk}:eps={ev}", constrain.h_kernel_fp,
-                           dict(skel=sk, which=["edges"], eps_value=ev, qtimeout_ms=120000,
-                                case_timeout_s=900 if tier == "thorough" else 420),
-                           weight=50))
+    # sized by a full thorough run: 6-edge skeletons and eps = 1.0 on 4 edges exceed 900 s
+    fp = [("cat3", 1e-8), ("internal_sample", 1e-8)]
+    if tier == "thorough":
+        fp += [("cat3", 1e-6), ("internal_sample", 1e-6), ("tri", 1e-8), ("tri", 1e-6), ("tri", 1.0)]
+    for sk, ev in fp:
+        cs.append(Case(f"fp-edges:{sk}:eps={ev}", constrain.h_kernel_fp,
+                       dict(skel=sk, which=["edges"], eps_value=ev, qtimeout_ms=120000,
+                            case_timeout_s=2400 if tier == "thorough" else 420),
+                       weight=50))
     if tier == "thorough":
         from symx import skeletons as SK
         for sk in ["cat3", "bal4", "two_parents", "internal_sample"]:
